@@ -153,5 +153,18 @@ def run(ctx):
             g = any(b.dominates(c, i) for c in call_blocks(b, r"StreamFrame::is_fin$"))
             ctx.ob("R3", "%s|fin_state := Lost only for a lost FIN frame" % b.short, g, b.where(line), "guarded by frame.is_fin(): %s" % g)
     ctx.floor("R3", "fin_state transition sites", n3, 3)
+    # ---------------------------------------------------------------- R4: completion predicates consult the buffer
+    ctx.rule("R4", "flush/shutdown complete only when the send buffer says every byte is acknowledged: the completion predicates "
+                   "reach SendBuf::is_all_rcvd (and, once the size is final, also require the FIN to be acknowledged)")
+    for name in ("qrecovery::send::sender::DataSentSender::is_all_rcvd", "qrecovery::send::sender::DataSentSender::poll_flush",
+                 "qrecovery::send::sender::DataSentSender::poll_shutdown", "qrecovery::crypto::send::Sender::poll_flush"):
+        b = ctx.anchor("R4", name)
+        if not b:
+            continue
+        seen = prog.reachable_bodies([b], cha=False)
+        ok = any(x in prog.bodies and prog.bodies[x].short.endswith("sndbuf::SendBuf::is_all_rcvd") for x in seen)
+        ctx.ob("R4", "%s|depends on SendBuf::is_all_rcvd" % b.short, ok, b.where(),
+               "the predicate reaches SendBuf::is_all_rcvd: %s — completing on the FIN acknowledgement alone drops the stream "
+               "while earlier data is still unacknowledged, so a lost range is never retransmitted" % ok)
     # who else writes the final states
     ctx.assume("BufMap::may_loss / ack_rcvd re-colour exactly the given range (value-level, C09)")
